@@ -128,7 +128,7 @@ pub fn run(args: &[String]) -> ! {
                byte-level mutations, plus raw random byte strings. Oracle: no panic; whatever CheckTx \
                accepts decodes with the public decoder and carries a valid signature. Non-trivial: a \
                mutated transaction that still parses as protobuf",
-        cases_quick: 240,
+        cases_quick: 480,
         cases_thorough: 10_000,
         shards: 12,
         min_nontrivial: 0.3,
